@@ -250,12 +250,14 @@ Definition is_unary (o : op) : bool :=
 (* kind of the result *)
 Definition rkind (o : op) (k : kind) : kind := if is_cmp o || is_logic o then KBool else k.
 
-(* which same-form kernel the operator uses (machines/*/src) *)
-Definition vkern_of (o : op) : vkern :=
-  match o with
-  | Add | Sub | Div => VStrict
-  | Mul | Mod => VZip
-  | _ => VIndex
+(* which same-form kernel the operator uses (machines/*/src; `+` on strings is
+   machines/string/src/concat.rs, dispatched by the same macro) *)
+Definition vkern_of (o : op) (k : kind) : vkern :=
+  match o, k with
+  | Add, KStr => VIndex
+  | (Add | Sub | Div), _ => VStrict
+  | (Mul | Mod), _ => VZip
+  | _, _ => VIndex
   end.
 
 (* the kind lists of the impl_*_fxn dispatchers (+ string concatenation for `+`) *)
@@ -614,8 +616,8 @@ Definition judge_core (o : op) (k : kind) (kn : string) (a b : operand sx) (t : 
         match r with
         | OErr => v_ok "rejected-shape"
         | OVal v =>
-            match ibop (dflt_payload rk) (vkern_of o) (orc_f rkn t) a b with
-            | Some d => if kf_samevec (vkern_of o) a b && val_eqb rk rkn d v then v_kf kf_id
+            match ibop (dflt_payload rk) (vkern_of o k) (orc_f rkn t) a b with
+            | Some d => if kf_samevec (vkern_of o k) a b && val_eqb rk rkn d v then v_kf kf_id
                         else v_bad "incompatible-shapes-accepted" (Ax "err")
             | None => v_bad "incompatible-shapes-accepted" (Ax "err")
             end
